@@ -512,6 +512,85 @@ def opMux : Op K := fun n a =>
         for k in [0:sz.getD s 0] do o := o.push (Mux.demux sz (vec a 0) s k)
       return o
 
+/-! ### beam FEM -/
+
+def outMat (o : Array K) (n m : Nat) (f : Nat → Nat → K) : Array K := Id.run do
+  let mut o := o
+  for i in [0:n] do
+    for j in [0:m] do o := o.push (f i j)
+  return o
+
+/-- ints: ny ; floats: nodes[ny,3] → element_lengths[ny-1] -/
+def opLength : Op K := fun n a => outVec #[] (n[0]! - 1) (elemLength (pts a 0))
+
+/-- ints: ny ; floats: nodes[ny,3] → transform[ny-1,12,12] -/
+def opTransform : Op K := fun n a =>
+  let ny := n[0]!
+  Id.run do
+    let mut o : Array K := #[]
+    for e in [0:ny-1] do
+      o := outMat o 12 12 (FEM.transform12 (FEM.triad (pts a 0 e) (pts a 0 (e + 1))))
+    return o
+
+/-- ints: ny ; floats: E G A[ne] Iy[ne] Iz[ne] J[ne] L[ne] → local_stiff[ne,12,12] -/
+def opLocalStiff : Op K := fun n a =>
+  let ne := n[0]! - 1
+  Id.run do
+    let mut o : Array K := #[]
+    for e in [0:ne] do
+      o := outMat o 12 12 (FEM.localStiff (at_ a 0) (at_ a 1) (at_ a (2 + e)) (at_ a (2 + ne + e)) (at_ a (2 + 2*ne + e))
+        (at_ a (2 + 3*ne + e)) (at_ a (2 + 4*ne + e)))
+    return o
+
+/-- ints: ny ; floats: local_stiff[ne,12,12] → local_stiff_permuted -/
+def opLocalStiffPermuted : Op K := fun n a =>
+  let ne := n[0]! - 1
+  Id.run do
+    let mut o : Array K := #[]
+    for e in [0:ne] do
+      o := outMat o 12 12 (FEM.permuted (fun r c => at_ a (144*e + 12*r + c)))
+    return o
+
+/-- ints: ny ; floats: local_stiff_permuted[ne,12,12] transform[ne,12,12] → local_stiff_transformed -/
+def opLocalStiffTransformed : Op K := fun n a =>
+  let ne := n[0]! - 1
+  Id.run do
+    let mut o : Array K := #[]
+    for e in [0:ne] do
+      o := outMat o 12 12 (FEM.transformed (fun r c => at_ a (144*ne + 144*e + 12*r + c)) (fun r c => at_ a (144*e + 12*r + c)))
+    return o
+
+/-- ints: ny ; floats: total_loads[ny,6] → forces[6ny+6] -/
+def opCreateRHS : Op K := fun n a =>
+  let ny := n[0]!
+  outVec #[] (6 * ny + 6) (FEM.createRHS ny (vec a 0))
+
+/-- ints: ny sym ; floats: local_stiff_transformed[ne,12,12] forces[6ny+6] → disp_aug[6ny+6] (own Gaussian elimination) -/
+def opFEMSolve : Op K := fun n a =>
+  let ny := n[0]!; let sym := flag n 1
+  let ne := ny - 1
+  let size := 6 * ny + 6
+  let kloc := fun e r c => at_ a (144*e + 12*r + c)
+  let Kf := FEM.assembleK ny (FEM.clampIndex ny sym) kloc
+  let A : Array (Array K) := (Array.range size).map fun r => (Array.range size).map fun c => Kf r c
+  gaussSolve size A ((Array.range size).map fun r => at_ a (144*ne + r))
+
+/-- ints: ny sym ; floats: E G nodes[ny,3] A Iy Iz J (each [ne]) loads[ny,6] → disp[ny,6]  (SpatialBeam chain) -/
+def opSpatialBeam : Op K := fun n a =>
+  let ny := n[0]!; let sym := flag n 1
+  let ne := ny - 1
+  let size := 6 * ny + 6
+  let nodes := pts a 2
+  let o := 2 + 3 * ny
+  let kl : Array (Array K) := (Array.range ne).map fun e =>
+    outMat #[] 12 12 (FEM.elementK (at_ a 0) (at_ a 1) nodes (vec a o) (vec a (o + ne)) (vec a (o + 2*ne)) (vec a (o + 3*ne)) e)
+  let kloc := fun e r c => at_ (kl.getD e #[]) (12*r + c)
+  let Kf := FEM.assembleK ny (FEM.clampIndex ny sym) kloc
+  let A : Array (Array K) := (Array.range size).map fun r => (Array.range size).map fun c => Kf r c
+  let f := (Array.range size).map fun r => FEM.createRHS ny (vec a (o + 4*ne)) r
+  let u := gaussSolve size A f
+  u.extract 0 (6 * ny)
+
 def ops : List (String × Op K) := [
   ("ComputeNodes", opComputeNodes),
   ("LoadTransfer", opLoadTransfer),
@@ -567,7 +646,15 @@ def ops : List (String × Op K) := [
   ("VLMStates", opVLMStates),
   ("PGRotate", opPGRotate),
   ("PGScale", opPGScale),
-  ("Mux", opMux)
+  ("Mux", opMux),
+  ("Length", opLength),
+  ("Transform", opTransform),
+  ("LocalStiff", opLocalStiff),
+  ("LocalStiffPermuted", opLocalStiffPermuted),
+  ("LocalStiffTransformed", opLocalStiffTransformed),
+  ("CreateRHS", opCreateRHS),
+  ("FEMSolve", opFEMSolve),
+  ("SpatialBeam", opSpatialBeam)
 ]
 
 end OAS.Driver
